@@ -14,12 +14,12 @@ def sha : HashFn := Lumina.Model.Sha256.hash
 abbrev St := Option Dah
 
 /-! Which code is modelled: the decoders AS THEY ARE NOW in /repo. -/
-def sampleFromRawNow := sampleFromRawUnfixed
-def sampleVerifyNow := sampleVerifyUnfixed sha
-def rowFromRawNow := rowFromRawUnfixed
-def rndVerifyNow := rndVerifyUnfixed sha
-def ndVerifyNow := ndVerifyUnfixed sha
-def befpPrefixNow := befpPrefix (verifyRange sha)
+def sampleFromRawNow := sampleFromRaw
+def sampleVerifyNow := sampleVerify sha
+def rowFromRawNow := rowFromRaw
+def rndVerifyNow := rndVerify sha
+def ndVerifyNow := ndVerify sha
+def befpPrefixNow := befpPrefix (safeVerifyRange sha)
 /-- is the `unwrap` of `BadEncodingFraudProof::validate` already replaced in /repo? -/
 def BEFP_UNWRAP_FIXED : Bool := false
 def befpSuffixNow := befpSuffix BEFP_UNWRAP_FIXED sha
